@@ -82,7 +82,7 @@ theorem judgeFrom_nil {bb : Option Name} :
     no clause of property C20 (euid, uid, creation, no-euid-no-creation, export preconditions, master asked, every
     object known and with a uid, no crash) is ever violated by the model. -/
 theorem model_satisfies_spec (cfg : Cfg) (pol : Policy) (fuel : Nat) (hist : List (Oid × Op)) :
-    judgeEv cfg.root cfg.bb (events cfg pol fuel hist) = [] :=
+    judgeEv cfg (events cfg pol fuel hist) = [] :=
   judgeFrom_nil _ _ 0 (events_ok cfg pol fuel hist)
 
 /-- non-vacuity: a history on which objects are created, seteuid is approved and refused, export succeeds -/
@@ -140,7 +140,8 @@ theorem holdsAlong_of_traceOK {bb : Option Name} (c : List Obj → StepRec → B
     obtain ⟨⟨w1, h1⟩, h2⟩ := h
     exact ⟨hc P w1 r h1, ih _ h2⟩
 
-/-- the snapshot the first step is judged against: only the master, uid = euid = get_root_uid() (set_master) -/
+/-- the snapshot the first step is judged against (`initObjs`): the master with uid = euid = get_root_uid() (set_master;
+    "NONAME" / 0 for a master without get_root_uid()) and, in configuration `simul`, the simul_efun object "NONAME" / 0 -/
 abbrev snap0 (cfg : Cfg) : List Obj := (World.init cfg).objs
 
 /-- An object's euid differs from the snapshot before the step only if the object was (re)created in this step
